@@ -211,10 +211,10 @@ def check(run) -> None:
     sfx, shapes = ("P", "ShapesAll") if probing else ("", "ShapesClean")
     what = " + probes (one library device inside if/for/while/try before the main loop)" if probing else ""
     if quick:
-        allst = generate("PlansQ" + sfx, shapes, "{0, 1}", run, "clean grid (10 subsets of the other kinds, both spelling/order variants)" + what)
+        allst = generate("PlansQ" + sfx, shapes, "{0, 1, 2}", run, "clean grid (10 subsets of the other kinds, both spelling/order variants)" + what)
     else:
         allst = generate("PlansFull" + sfx, shapes, "{0}", run, "clean grid (all 256 subsets of the other kinds)" + what)
-        allst += generate("PlansQ", "ShapesClean", "{1}", run, "clean grid, second spelling/order variant")
+        allst += generate("PlansQ", "ShapesClean", "{1, 2}", run, "clean grid, second spelling/order variant and the one-identifier variant")
     is_probe = [any(d["place"] == "nested" for d in s["decls"]) for s in allst]
     if any(is_probe) and not probing:
         raise MachineryError("C14: nested placement generated outside the probe stratum")
